@@ -169,11 +169,35 @@ type bytesrc struct {
 	pos int64
 }
 
-func (s *bytesrc) next(n int) []byte {
-	p := make([]byte, n)
+// next returns the next n bytes in scratch memory of the arena (valid until
+// the following call).
+func (s *bytesrc) next(n int, ar *arena) []byte {
+	if cap(ar.data) < n {
+		ar.data = make([]byte, n+n/4+16)
+	}
+	p := ar.data[:n]
 	patFill(s.key, s.pos, p)
 	s.pos += int64(n)
 	return p
+}
+
+// arena holds per-worker scratch memory so that the exhaustive search does not
+// allocate per step.
+type arena struct {
+	data  []byte
+	rbuf  []byte
+	out   []byte
+	rd    scriptReader
+	wr    scriptWriter
+	drain ring.Buffer
+	store []byte
+}
+
+func (ar *arena) readBuf(n int) []byte {
+	if cap(ar.rbuf) < n {
+		ar.rbuf = make([]byte, n+n/4+16)
+	}
+	return ar.rbuf[:n]
 }
 
 type stepResult struct {
@@ -229,7 +253,7 @@ func errName(e error) string {
 
 // step applies one operation to the real buffer and to the model and compares
 // every result.
-func step(b *ring.Buffer, f *fifo, o rop, src *bytesrc) (res stepResult) {
+func step(b *ring.Buffer, f *fifo, o rop, src *bytesrc, ar *arena) (res stepResult) {
 	usedBefore := f.used()
 	free := f.cap - usedBefore
 	fail := func(format string, a ...any) {
@@ -237,11 +261,12 @@ func step(b *ring.Buffer, f *fifo, o rop, src *bytesrc) (res stepResult) {
 			res.mismatch = fmt.Sprintf(format, a...)
 		}
 	}
+	_ = fail
 	var gotN, wantN int
 	var gotErr, wantErr error
 	switch o.Kind {
 	case opWrite:
-		data := src.next(o.N)
+		data := src.next(o.N, ar)
 		gotN, gotErr = b.Write(data)
 		wantN = minInt(o.N, free)
 		if wantN < o.N {
@@ -249,7 +274,7 @@ func step(b *ring.Buffer, f *fifo, o rop, src *bytesrc) (res stepResult) {
 		}
 		f.push(data[:wantN])
 	case opWriteByte:
-		data := src.next(1)
+		data := src.next(1, ar)
 		gotErr = b.WriteByte(data[0])
 		if free == 0 {
 			wantErr = ring.ErrBufferFull
@@ -261,7 +286,7 @@ func step(b *ring.Buffer, f *fifo, o rop, src *bytesrc) (res stepResult) {
 			gotN = 1
 		}
 	case opRead:
-		buf := make([]byte, o.N)
+		buf := ar.readBuf(o.N)
 		gotN, gotErr = b.Read(buf)
 		switch {
 		case o.N == 0:
@@ -297,8 +322,9 @@ func step(b *ring.Buffer, f *fifo, o rop, src *bytesrc) (res stepResult) {
 		if avail < 0 {
 			avail = maxInt(o.N, 0) + f.cap + 5
 		}
-		data := src.next(avail)
-		rd := &scriptReader{data: data, chunk: o.Chunk, term: io.EOF, with: o.With}
+		data := src.next(avail, ar)
+		rd := &ar.rd
+		*rd = scriptReader{data: data, chunk: o.Chunk, term: io.EOF, with: o.With}
 		if o.Fail {
 			rd.term = errScriptRead
 		}
@@ -328,7 +354,8 @@ func step(b *ring.Buffer, f *fifo, o rop, src *bytesrc) (res stepResult) {
 			fail("ReadNFrom took %d bytes from the reader but stored %d", rd.pos, gotN)
 		}
 	case opWriteTo:
-		wr := &scriptWriter{budget: o.Budget}
+		wr := &ar.wr
+		wr.budget, wr.got, wr.calls = o.Budget, wr.got[:0], 0
 		var n64 int64
 		n64, gotErr = b.WriteTo(wr)
 		gotN = int(n64)
@@ -353,9 +380,12 @@ func step(b *ring.Buffer, f *fifo, o rop, src *bytesrc) (res stepResult) {
 }
 
 // drainCheck empties a COPY of the buffer through Read and compares with the model.
-func drainCheck(b *ring.Buffer, f *fifo) string {
-	c := cloneBuffer(b)
-	out := make([]byte, f.used()+2)
+func drainCheck(b *ring.Buffer, f *fifo, ar *arena) string {
+	c := cloneInto(&ar.drain, &ar.store, b)
+	if cap(ar.out) < f.used()+2 {
+		ar.out = make([]byte, f.used()*2+16)
+	}
+	out := ar.out[:f.used()+2]
 	n, err := c.Read(out)
 	if f.used() == 0 {
 		if n != 0 || err != io.EOF {
@@ -398,6 +428,28 @@ func cloneable() bool {
 	out := make([]byte, 4)
 	n, _ := c.Read(out)
 	return n == 3 && out[0] == 2 && out[1] == 3 && out[2] == 4
+}
+
+// cloneInto copies b into dst, giving dst its own storage taken from *store.
+func cloneInto(dst *ring.Buffer, store *[]byte, b *ring.Buffer) *ring.Buffer {
+	*dst = *b
+	sp := (*[]byte)(unsafe.Pointer(dst))
+	if *sp != nil {
+		if cap(*store) < len(*sp) {
+			*store = make([]byte, len(*sp))
+		}
+		ns := (*store)[:len(*sp)]
+		copy(ns, *sp)
+		*sp = ns
+	}
+	return dst
+}
+
+func (f *fifo) cloneInto(dst *fifo) *fifo {
+	dst.cap = f.cap
+	dst.q = append(dst.q[:0], f.view()...)
+	dst.head = 0
+	return dst
 }
 
 func cloneBuffer(b *ring.Buffer) *ring.Buffer {
@@ -518,41 +570,47 @@ func (st *c26State) exhaust(capacity int, alphabet []rop, maxLen int, useClone b
 			local := map[uint64]struct{}{}
 			var count int64
 			path := make([]rop, 0, maxLen)
+			ar := &arena{}
+			// Per-depth copies of the buffer and the model (no allocation per node).
+			type level struct {
+				b     ring.Buffer
+				store []byte
+				f     fifo
+			}
+			levels := make([]level, maxLen+1)
 			// replay rebuilds the buffer for a prefix (fallback when cloning is unavailable).
-			replay := func(p []rop) (*ring.Buffer, *fifo, *bytesrc) {
-				b := ring.NewBuffer(capacity)
-				f := &fifo{cap: capacity}
-				src := &bytesrc{key: 0xc26}
+			replay := func(p []rop, lv *level) bytesrc {
+				lv.b = *ring.NewBuffer(capacity)
+				lv.f = fifo{cap: capacity}
+				src := bytesrc{key: 0xc26}
 				for _, o := range p {
-					step(b, f, o, src)
+					step(&lv.b, &lv.f, o, &src, ar)
 				}
-				return b, f, src
+				return src
 			}
 			var dfs func(b *ring.Buffer, f *fifo, src bytesrc, depth int)
 			dfs = func(b *ring.Buffer, f *fifo, src bytesrc, depth int) {
+				lv := &levels[depth+1]
 				for oi, o := range alphabet {
-					var nb *ring.Buffer
-					var nf *fifo
 					ns := src
 					if useClone {
-						nb, nf = cloneBuffer(b), f.clone()
+						cloneInto(&lv.b, &lv.store, b)
+						f.cloneInto(&lv.f)
 					} else {
-						var s2 *bytesrc
-						nb, nf, s2 = replay(path)
-						ns = *s2
+						ns = replay(path, lv)
 					}
 					path = append(path, o)
-					res := step(nb, nf, o, &ns)
+					res := step(&lv.b, &lv.f, o, &ns, ar)
 					count++
 					if res.mismatch == "" && useClone {
-						res.mismatch = drainCheck(nb, nf)
+						res.mismatch = drainCheck(&lv.b, &lv.f, ar)
 					}
 					if res.mismatch != "" {
 						st.violation(capacity, path, res.mismatch)
 					} else {
 						local[sigKey(oi, res)] = struct{}{}
 						if depth+1 < maxLen {
-							dfs(nb, nf, ns, depth+1)
+							dfs(&lv.b, &lv.f, ns, depth+1)
 						}
 					}
 					path = path[:len(path)-1]
@@ -566,7 +624,7 @@ func (st *c26State) exhaust(capacity int, alphabet []rop, maxLen int, useClone b
 				src := bytesrc{key: 0xc26}
 				path = path[:0]
 				path = append(path, alphabet[t.a])
-				r1 := step(b, f, alphabet[t.a], &src)
+				r1 := step(b, f, alphabet[t.a], &src, ar)
 				if r1.mismatch != "" {
 					if t.b == 0 {
 						st.violation(capacity, path, r1.mismatch)
@@ -578,9 +636,9 @@ func (st *c26State) exhaust(capacity int, alphabet []rop, maxLen int, useClone b
 					continue
 				}
 				path = append(path, alphabet[t.b])
-				r2 := step(b, f, alphabet[t.b], &src)
+				r2 := step(b, f, alphabet[t.b], &src, ar)
 				if r2.mismatch == "" && useClone {
-					r2.mismatch = drainCheck(b, f)
+					r2.mismatch = drainCheck(b, f, ar)
 				}
 				if r2.mismatch != "" {
 					st.violation(capacity, path, r2.mismatch)
@@ -677,6 +735,7 @@ func (st *c26State) randomSequence(idx int, rng *rand.Rand, ops int) {
 	src := &bytesrc{key: mix64(uint64(idx) + 0x26)}
 	local := map[string]struct{}{}
 	trail := make([]rop, 0, 24)
+	ar := &arena{}
 	for i := 0; i < ops; i++ {
 		o := randomOp(rng, capacity, f.used())
 		if len(trail) == cap(trail) {
@@ -684,9 +743,9 @@ func (st *c26State) randomSequence(idx int, rng *rand.Rand, ops int) {
 			trail = trail[:len(trail)-1]
 		}
 		trail = append(trail, o)
-		res := step(b, f, o, src)
+		res := step(b, f, o, src, ar)
 		if res.mismatch == "" && (i%64 == 63 || i == ops-1) {
-			res.mismatch = drainCheck(b, f)
+			res.mismatch = drainCheck(b, f, ar)
 		}
 		if res.mismatch != "" {
 			st.violation(capacity, trail, fmt.Sprintf("random sequence %d, operation %d (the sequence shown is its tail): %s", idx, i, res.mismatch))
